@@ -278,7 +278,9 @@ func TestVerifC11Adversarial(t *testing.T) {
 			if a.f == nil {
 				continue
 			}
-			if _, mine := r.Next(); !mine {
+			// (the number of byte-flip alterations follows the length of this process's randomised ECDSA
+			// signature: cases are dealt to shards by description)
+			if !r.MineKey(keyName + "|" + a.desc) {
 				continue
 			}
 			p := vsCloneProof(honest).(*ProofD)
@@ -348,9 +350,15 @@ func TestVerifC11Adversarial(t *testing.T) {
 			newest := *w.accs[w.last()]
 			sacc, _ := (&newest).Sign(k.Sk)
 			victim := vfMint(k, vfTag("advF"), []*big.Int{vfTag("f1"), vfTag("f2"), vfRevPrime(9)}, 4) // no witness at all
-			degenerate := map[string]*big.Int{"0": vfInt(0), "1": vfInt(1), "N-1": new(big.Int).Sub(N, vfInt(1)), "N": new(big.Int).Set(N), "p-multiple-unknown(2)": vfInt(2)}
-			for crName, cr := range degenerate {
-				for cuName, cu := range degenerate {
+			type dgen struct {
+				name string
+				v    *big.Int
+			}
+			// a slice, not a map: the case numbering must be the same in every shard
+			degenerate := []dgen{{"0", vfInt(0)}, {"1", vfInt(1)}, {"N-1", new(big.Int).Sub(N, vfInt(1))}, {"N", new(big.Int).Set(N)}, {"p-multiple-unknown(2)", vfInt(2)}}
+			for _, dr := range degenerate {
+				for _, du := range degenerate {
+					crName, cr, cuName, cu := dr.name, dr.v, du.name, du.v
 					for _, resp := range []int64{0, 1, 12345} {
 						if _, mine := r.Next(); !mine {
 							continue
